@@ -12,6 +12,9 @@ R3  the hand-written ``async yield from`` forwards values, exceptions and closur
     PEP 380 prescribes: the forwarding code of every generated wrapper is interpreted by the
     analyser's own protocol evaluator (sa/agenproto.py) against every caller script × inner
     generator script up to a bound and compared with the reference semantics.
+R4  return annotations by callable kind: the return reducer (Coroutine[Y, S, R] → R for
+    coroutines; generators only with hints they can return) and its place in the root
+    sanifier (after string resolution), both interpreted.
 """
 from __future__ import annotations
 
@@ -119,6 +122,7 @@ def run(ctx):
     ctx.floor('C08.R1', n_kind, 100, 'generated wrappers classified')
     n_agen = sum(1 for f, r, fa in ws if f.kind == 'agen' and r.code)
     ctx.floor('C08.R3', n_agen, 8, 'async-generator wrappers')
+    _return_hint_reduction(ctx)
 
 
 _PROTO_CACHE = {}
@@ -189,3 +193,132 @@ def _describe(ops, script, got, exp):
     return (f'caller: {", ".join(o(x) for x in ops)}; inner generator answers: {", ".join(o(x) for x in script)} — '
             f'the wrapper {"; ".join(o(x) for x in got[0])} after performing [{", ".join(o(x) for x in got[1])}] on the '
             f'inner generator; async-yield-from semantics: {"; ".join(o(x) for x in exp[0])} after [{", ".join(o(x) for x in exp[1])}]')
+
+
+def _return_hint_reduction(ctx):
+    """R4 by interpretation: what the return annotation of a coroutine / generator callable is reduced to, and when."""
+    from sa.fold import AObj, FuncVal, Sym, _Abort, _Raise, _call_function
+    from . import _gen
+    repo = ctx.repo
+    F = _gen.engines(ctx)[0].f
+    ctx.rule('C08.R4', 'return annotations by callable kind, decided by interpretation: (a) reduce_hint_pep484585_func_return '
+             'over kind ∈ {plain, coroutine, generator, async generator} × return hint ∈ {Coroutine[Y, S, R], Generator, '
+             'Iterable, Iterator, AsyncGenerator, AsyncIterable, AsyncIterator, Any, object, an unrelated class}: a '
+             'coroutine annotated Coroutine[Y, S, R] is checked against R, every other accepted combination keeps its '
+             'hint, a generator annotated with something it cannot return is rejected at decoration time; (b) '
+             'sanify_hint_root_func over {hint given as an object, hint given as a string} × {parameter, return}: the '
+             'return reducer sees the resolved hint (string resolution first, published in the annotations), is applied '
+             'to returns only, and its result is what is reduced further')
+    RM = 'beartype._util.hint.pep.proposal.pep484585.pep484585func'
+    rm = repo.mod(RM)
+    red = F.const(RM, 'reduce_hint_pep484585_func_return')
+    ctx.require(isinstance(red, FuncVal), 'anchor vanished: reduce_hint_pep484585_func_return')
+    SIGNS = 'beartype._data.hint.sign.datahintsigns'
+
+    class _Hint(AObj):
+        def __init__(self, sign, args=()):
+            self.sign, self.args = sign, tuple(args)
+
+        def __repr__(self):
+            return f'{self.sign or "Class"}{list(self.args) if self.args else ""}'
+
+    class _Fn(AObj):
+        def __init__(self, kind):
+            self.kind = kind
+            self.__name__ = self.__qualname__ = 'f'
+
+        def __repr__(self):
+            return f'<{self.kind} function>'
+    saved_stubs, saved_i = dict(F.stubs), F.isinstance_hook
+    T = 'beartype._util.func.utilfunctest.'
+    F.stubs[T + 'is_func_coro'] = lambda e, a, k: a[0].kind == 'coro'
+    F.stubs[T + 'is_func_sync_generator'] = lambda e, a, k: a[0].kind == 'gen'
+    F.stubs[T + 'is_func_async_generator'] = lambda e, a, k: a[0].kind == 'agen'
+    F.stubs['beartype._util.hint.pep.utilpepsign.get_hint_pep_sign_or_none'] = \
+        lambda e, a, k: (F.const(SIGNS, 'HintSign' + a[0].sign) if isinstance(a[0], _Hint) and a[0].sign else None)
+    F.stubs['beartype._util.hint.pep.proposal.pep484585.pep484585args.get_hint_pep484585_args'] = \
+        lambda e, a, k: k.get('hint', a[0] if a else None).args
+    F.stubs['beartype._util.cls.utilclstest.is_type_subclass'] = lambda e, a, k: False
+    F.stubs['beartype._util.text.utiltextprefix.prefix_callable_return'] = lambda e, a, k: 'return of f '
+    F.isinstance_hook = lambda o, c: (True if isinstance(o, dict) else (saved_i(o, c) if saved_i else None))
+    saved_b = F.builtin_hook
+    F.builtin_hook = lambda name, args, kw: (True if name == 'callable' and args and isinstance(args[0], _Fn) else (
+        repr(args[0]) if name == 'repr' and args and isinstance(args[0], AObj) else (saved_b(name, args, kw) if saved_b else NotImplemented)))
+    F.stubs['beartype._util.hint.pep.proposal.pep749.pep649749annotate.get_hintable_pep649749_annotations'] = \
+        lambda e, a, k: {'return': 'the return hint'}
+    R = _Hint(None)
+    hints = {'Coroutine[Y, S, R]': _Hint('Coroutine', (_Hint(None), _Hint(None), R)), 'Generator': _Hint('Generator'),
+             'Iterable': _Hint('Iterable'), 'Iterator': _Hint('Iterator'), 'AsyncGenerator': _Hint('AsyncGenerator'),
+             'AsyncIterable': _Hint('AsyncIterable'), 'AsyncIterator': _Hint('AsyncIterator'), 'Any': _Hint('Any'),
+             'object': Sym('builtin', 'object'), 'a class': _Hint(None)}
+    SYNC_OK, ASYNC_OK = {'Generator', 'Iterable', 'Iterator', 'Any', 'object'}, {'AsyncGenerator', 'AsyncIterable', 'AsyncIterator', 'Any', 'object'}
+    try:
+        for kind in ('sync', 'coro', 'gen', 'agen'):
+            for hname, h in hints.items():
+                raised = out = None
+                try:
+                    out = _call_function(F, red, [], dict(func=_Fn(kind), func_annotations={'return': h, 'x': _Hint(None)},
+                                                          exception_prefix=''), 1)
+                except _Raise as ex:
+                    raised = ex
+                except _Abort as ex:
+                    ctx.require(False, f'cannot interpret {red.qual}: {ex}')
+                if kind == 'coro' and hname.startswith('Coroutine'):
+                    ok, want = out is R, 'the third argument R'
+                elif (kind == 'gen' and hname not in SYNC_OK) or (kind == 'agen' and hname not in ASYNC_OK):
+                    ok, want = raised is not None and 'Beartype' in str(raised.what), 'a decoration-time beartype exception'
+                else:
+                    ok, want = out is h and raised is None, 'the hint itself'
+                ctx.ob('C08.R4', f'return-hint:{kind}:{hname}', rm.where(red.node),
+                       f'the return annotation {hname} of a {kind} callable reduces to {want}', ok,
+                       f'evaluates to {out!r}' if raised is None else f'raises {raised}')
+    finally:
+        F.isinstance_hook, F.builtin_hook = saved_i, saved_b
+        F.stubs.clear()
+        F.stubs.update(saved_stubs)
+    # (b) ordering and publication in the root sanifier
+    CM = 'beartype._check.convert.convmain'
+    cm = repo.mod(CM)
+    san = F.const(CM, 'sanify_hint_root_func')
+    ctx.require(isinstance(san, FuncVal), 'anchor vanished: sanify_hint_root_func')
+
+    class _Decor(AObj):
+        def __init__(self, ann):
+            self.decoratee_annotations = ann
+            self.func_wrappee = _Fn('coro')
+            self.conf = 'CONF'
+
+        def set_func_pith_hint(self, pith_name=None, hint=None, **kw):
+            self.decoratee_annotations[pith_name] = hint
+    seen = {}
+    RESOLVED = _Hint('Coroutine', (_Hint(None), _Hint(None), R))
+    saved_stubs = dict(F.stubs)
+    F.stubs['beartype._check.convert._convcoerce.coerce_func_hint_root'] = \
+        lambda e, a, k: (RESOLVED if isinstance(k.get('hint'), str) else k.get('hint'))
+    F.stubs[RM + '.reduce_hint_pep484585_func_return'] = \
+        lambda e, a, k: seen.setdefault('reducer-saw', k['func_annotations'].get('return')) and ('REDUCED', k['func_annotations'].get('return'))
+    F.stubs['beartype._check.convert._reduce.redmain.reduce_hint'] = lambda e, a, k: ('SANE', k.get('hint'))
+    try:
+        for given in ('object', 'string'):
+            for pith in ('return', 'x'):
+                seen.clear()
+                h0 = 'Coroutine[Y, S, R]' if given == 'string' else RESOLVED
+                d = _Decor({'return': h0, 'x': h0})
+                try:
+                    out = _call_function(F, san, [], dict(decor_func=d, hint=h0, pith_name=pith, exception_prefix=''), 1)
+                except (_Abort, _Raise) as ex:
+                    ctx.require(False, f'cannot interpret {san.qual}: {ex}')
+                tag = f'hint-given-as-{given}:{pith}'
+                if pith == 'return':
+                    ok = seen.get('reducer-saw') is RESOLVED and out == ('SANE', ('REDUCED', RESOLVED))
+                    ctx.ob('C08.R4', f'root-sanifier:{tag}', cm.where(san.node),
+                           'the return reducer is applied to the resolved hint and its result is what is reduced further',
+                           ok, f'the return reducer saw {seen.get("reducer-saw")!r}; evaluates to {out!r}')
+                else:
+                    ok = 'reducer-saw' not in seen and out == ('SANE', RESOLVED)
+                    ctx.ob('C08.R4', f'root-sanifier:{tag}', cm.where(san.node),
+                           'a parameter hint is resolved and reduced, the return reducer is not applied to it', ok,
+                           f'return reducer called: {"reducer-saw" in seen}; evaluates to {out!r}')
+    finally:
+        F.stubs.clear()
+        F.stubs.update(saved_stubs)
